@@ -55,6 +55,7 @@ const (
 	kpRecvSpoofMulticast
 	kpRecvSpoofHighPid
 	kpStatusKept
+	kpTwoClientRecv
 	nKProbes
 )
 
@@ -65,7 +66,7 @@ var kProbeNames = []string{"unsolicited_record_skipped_inside_call", "eagain_x9_
 	"waitacks_with_nothing_pending", "waitacks_called_again_after_error", "repeated_close_was_noop", "second_close_blocked_in_once",
 	"close_cleared_pid", "getrules_buffer_overwritten_later", "sends_overlapped_in_time", "receive_short_datagram", "receive_foreign_port_id",
 	"receive_non_netlink_address", "short_after_long_datagram", "send_payload_8970", "send_with_caller_pid", "porcupine_histories_checked",
-	"sendto_failed", "kernel_immutable", "receive_foreign_port_id_with_group_mask", "receive_foreign_port_id_2^31_or_more", "getstatus_result_checked_again_at_end"}
+	"sendto_failed", "kernel_immutable", "receive_foreign_port_id_with_group_mask", "receive_foreign_port_id_2^31_or_more", "getstatus_result_checked_again_at_end", "receive_on_two_independent_clients_in_tasks"}
 
 var kFaultNames = []string{"injected_errno", "unsolicited_records", "stale_reply", "delayed_reply", "truncated_or_padded_reply", "spoofed_datagram",
 	"recv_eintr", "recv_eagain_injected", "recv_eagain_natural", "sendto_errno", "concurrent_close_tasks", "concurrent_send_tasks"}
@@ -944,10 +945,22 @@ const (
 func (c *kctx) concurrentPhase(gb *gateBox) {
 	h := clientHist
 	h.Reset()
-	sc := core.NewSched(h, c.p.Tape, 3000)
+	sc := core.NewSched(h, c.p.Tape, 6000)
 	sc.Strategy = c.p.Strategy
 	sc.StickyMod = 3
-	sc.SysHandler = c.port.sysHandler
+	// a second, independent client on its own socket (receiver tasks alternate between the two)
+	portB := &kernelPort{k: kern.New(44, func() int64 { return int64(time.Since(c.start)) })}
+	gbB := &gateBox{g: &schedGate{sc: sc, port: 1}}
+	var clientB *libaudit.AuditClient
+	if c.realNL != nil {
+		clientB = &libaudit.AuditClient{Netlink: newRealNetlink(&simSocket{gb: gbB}, c.p.PortID+1, make([]byte, 16+8970))}
+	}
+	sc.SysHandler = func(task int, req core.SysReq) core.SysResp {
+		if req.B == 1 {
+			return portB.sysHandler(task, req)
+		}
+		return c.port.sysHandler(task, req)
+	}
 	gb.set(&schedGate{sc: sc})
 	L0 := len(c.k.Ledger)
 	sfBefore := c.port.sendFailed
@@ -982,6 +995,37 @@ func (c *kctx) concurrentPhase(gb *gateBox) {
 						e = 1
 					}
 					h.Rec(evKRet, opid, e, 0, 0, "")
+				case kRecvRaw:
+					// a kernel datagram arrives on this task's client and is read with AuditClient.Receive
+					if c.realNL == nil || clientB == nil || ti >= 2 {
+						continue // one receiver per client: a client has a single read buffer
+					}
+					cl, port := c.client, int64(0)
+					if ti%2 == 1 {
+						cl, port = clientB, 1
+					}
+					n := int(op.A)
+					if n < 16 {
+						n = 16
+					}
+					data := sendPayload(ti*1000+oi+77, n)
+					putU32(data[0:], uint32(n))
+					putU16(data[4:], uint16(1300+ti*10+oi))
+					t.Sys(core.SysReq{Op: sysInject, B: port, Data: data})
+					h.Rec(evKCall, opid, int64(op.K), 0, 0, "")
+					m, err := cl.Receive(true)
+					bad := ""
+					switch {
+					case err != nil:
+						bad = "Receive failed on a kernel datagram: " + err.Error()
+					case m == nil:
+						bad = "Receive returned nil without error"
+					case int(m.Type) != int(getU16(data[4:])):
+						bad = fmt.Sprintf("Receive returned type %d, the datagram read by this client has type %d", m.Type, getU16(data[4:]))
+					case !bytes.Equal(m.Data, data[16:]):
+						bad = fmt.Sprintf("Receive returned %d payload bytes that are not the %d bytes of the datagram read by this client", len(m.Data), n-16)
+					}
+					h.Rec(evKRet, opid, 0, 0, 0, bad)
 				case kSendRaw:
 					if c.realNL == nil {
 						continue
@@ -1000,9 +1044,11 @@ func (c *kctx) concurrentPhase(gb *gateBox) {
 			}
 		})
 	}
+	setAuto(c.p.Auto, c.p.AutoSalt)
 	setActiveSched(sc)
 	verdict := sc.Run()
 	setActiveSched(nil)
+	setAuto(0, 0)
 	gb.set(&directGate{c.port})
 	c.res.SchedHash = sc.SchedHash
 	c.res.Steps += sc.Steps
@@ -1081,6 +1127,13 @@ func (c *kctx) concurrentPhase(gb *gateBox) {
 				callAt[e.A] = idx
 			case evKRet:
 				ti, oi := int(e.A)/100, int(e.A)%100
+				if c.p.Tasks[ti][oi].K == kRecvRaw {
+					c.res.Probes[kpTwoClientRecv]++
+					if e.S != "" {
+						c.viol("receive-concurrent-clients", "Receive", "two independent clients receiving in different tasks: %s", e.S)
+					}
+					continue
+				}
 				sr := &sends[ti][oi]
 				sr.seq = uint32(e.C)
 				sr.err = e.B != 0
